@@ -429,9 +429,8 @@ func (a *NodeActor) runGossipRoundWithTargets(ctx vivid.ActorContext, targets []
 		if !a.gossipRateLimiter.Allow() {
 			break
 		}
-		if !a.shouldSendGossipTo(snap.VersionVector, addr) {
-			continue
-		}
+		// 周期性 Gossip 同时承担心跳职责：对端仅在收到本节点直接发来的 Gossip 时才刷新本节点的 LastSeen，
+		// 因此这里不能按版本向量跳过发送（该优化仅用于状态变更触发的 broadcastViewOnce），否则视图收敛后不再有任何 Gossip，健康节点会被故障检测误剔除
 		ref, err := ctx.System().CreateRef(addr, "/@cluster")
 		if err != nil {
 			continue
